@@ -39,6 +39,10 @@ def main():
             meta = json.load(open(os.path.join(d, "meta.json")))
             pid = meta["property"]
             r = {"property": pid, "summary": meta.get("summary", "")}
+            if not confirm and name in results:
+                for k in ("demo_clean", "demo_changed", "tests", "confirmed", "first_run_detected"):
+                    if k in results[name]:
+                        r[k] = results[name][k]
             sh(["git", "-C", wt, "checkout", "--", "."])
             env = dict(os.environ, PYTHONPATH=wt)
             if confirm:
